@@ -308,6 +308,11 @@ def apply_pre(ss, case, auto):
                 m.alter(pn, my, new)
             except Exception:     # noqa
                 continue
+            if p.get_property('unique') and sum(1 for t in p.v if t == new) > 1:
+                # (an explicit idx that collided was renamed by System.add: the requested names do not tell which
+                # targets are free) -- keep the data valid: undo
+                m.alter(pn, my, res(v))
+                continue
             a['params'][pn] = new
             done += 1
             break
